@@ -4,6 +4,8 @@ from typing import Union
 
 from pydantic import BaseModel, Extra, ValidationError
 from pydantic_yaml import parse_yaml_file_as, parse_yaml_raw_as, to_yaml_str
+from ruamel.yaml import YAML
+from ruamel.yaml.representer import SafeRepresenter
 
 from .encoder import DynEncoderModelMetaclass
 from .parser import ParserMixin
@@ -17,6 +19,28 @@ def _mod_def_dump_args(kwargs):
         kwargs["exclude_none"] = True  # we treat None as "missing" so leave it out
     return kwargs
 
+
+
+class _YamlRepresenter(SafeRepresenter):
+    """Representer that double-quotes strings containing NEL (U+0085).
+
+    In the other scalar styles the emitter writes NEL verbatim
+    and it is read back as a line fold, i.e. a blank.
+    """
+
+
+_YamlRepresenter.add_representer(
+    str,
+    lambda dumper, data: dumper.represent_scalar(
+        "tag:yaml.org,2002:str", data, style='"' if "\x85" in data else None
+    ),
+)
+
+
+def _yaml_writer() -> YAML:
+    writer = YAML(typ="safe", pure=True)  # same as default of pydantic_yaml
+    writer.Representer = _YamlRepresenter
+    return writer
 
 class BaseModelPlus(ParserMixin, BaseModel, metaclass=DynEncoderModelMetaclass):
     """Extended pydantic BaseModel with some good defaults.
@@ -71,7 +95,7 @@ class BaseModelPlus(ParserMixin, BaseModel, metaclass=DynEncoderModelMetaclass):
         # Current way: use round trip through JSON to kick out non-JSON entities
         # (more elegant: allow ruamel yaml to reuse defined custom JSON dumpers)
         # tmp = self.json_dict(**_mod_def_dump_args(kwargs))
-        return to_yaml_str(self)
+        return to_yaml_str(self, custom_yaml_writer=_yaml_writer())
 
     @classmethod
     def parse_file(cls, path: Union[str, Path]):
